@@ -107,15 +107,15 @@ pub async fn connect_pair(cfg_a: Cfg, cfg_b: Cfg, netcfg: NetCfg, rng: &mut Rng)
     let ((sa, ra), (sb, rb)) = net.endpoints();
     let sched = match netcfg.delivery {
         Delivery::Eager => None,
-        _ => Some(tokio::spawn(run_scheduler(net.clone(), rng.fork(77)))),
+        _ => Some(crate::sched::spawn(run_scheduler(net.clone(), rng.fork(77)))),
     };
     let (ra_, rb_) = crate::clock::or_quiescent(async { tokio::join!(ChMux::new(cfg_a, sa, ra), ChMux::new(cfg_b, sb, rb)) })
         .await
         .ok_or_else(|| "handshake pending at quiescence".to_string())?;
     let (mux_a, client_a, listener_a) = ra_.map_err(|e| format!("ChMux::new A failed: {e}"))?;
     let (mux_b, client_b, listener_b) = rb_.map_err(|e| format!("ChMux::new B failed: {e}"))?;
-    let run_a = tokio::spawn(mux_a.run());
-    let run_b = tokio::spawn(mux_b.run());
+    let run_a = crate::sched::spawn(mux_a.run());
+    let run_b = crate::sched::spawn(mux_b.run());
     Ok(Conn {
         net,
         a: End { client: client_a, listener: listener_a, run: run_a },
